@@ -364,8 +364,11 @@ def execute(program: dict) -> dict:
                         i = (abs(i) % n) if i >= 0 else -1 - (abs(i + 1) % n)
                         add("node", oi, [i % n], tree[i], f"tree[{i}]")
                     elif what == "node":
-                        i = abs(step["i"]) % n
-                        add("node", oi, [i], tree.node(i), "tree.node")
+                        # tree.node(i) with any valid position, negative ones included (the handle keeps the number
+                        # it was given; tree[i] normalises it first)
+                        i = step["i"]
+                        i = (abs(i) % n) if i >= 0 else -1 - (abs(i + 1) % n)
+                        add("node", oi, [i % n], tree.node(i), f"tree.node({i})")
                     elif what == "slice":
                         sl = slice(*step["sl"])
                         exp = list(range(n))[sl]
@@ -489,8 +492,15 @@ def execute(program: dict) -> dict:
                     else:
                         i = step["i"]
                         i = (abs(i) % n) if i >= 0 else -1 - (abs(i + 1) % n)
-                        nd = h["obj"][i]
+                        nd = h["obj"][i] if step["h"] % 3 else h["obj"].node(i)
                         read_node(nd, o, ids[i], f"{what}[{i}]", False)
+                        if step["t"] % 2:
+                            # a detached copy of a node reached through a view: equal content at creation
+                            d = nd.detach()
+                            for col in ATTRS:
+                                got = float(getattr(d, col))
+                                chk(got == float(o["m"][col][ids[i]]), "detach",
+                                    f"{what}.node({i}).detach().{col} reads {got!r}, node {ids[i]} holds {o['m'][col][ids[i]]!r}")
                         world.log(si, "index", h["serial"], i)
                     deep_ix = hi
                 elif k == "write":
